@@ -318,6 +318,18 @@ pub fn aborts() -> [state_machines::core::AroundOutcome<A>; 4] {
 ''' % PANIC_PROBE_DSL
 
 
+# typestate only (the event enum of the dynamic wrapper cannot name `impl Trait`): the payload is monomorphised, nothing is boxed
+IMPL_TRAIT_MOD = '''
+pub mod it {
+    use state_machines::state_machine;
+    state_machine! { name: Gate, initial: Shut, states: [Shut, Open],
+        events { open { payload: impl Fn(u8) -> bool, guards: [allow], transition: { from: Shut, to: Open } } } }
+    impl<C, S> Gate<C, S> { fn allow(&self, _c: &C, p: &impl Fn(u8) -> bool) -> bool { p(1) } }
+    pub fn drive(g: Gate<(), Shut>) -> bool { g.open(|x| x > 0).is_ok() }
+}
+'''
+
+
 def k3_nostd(ctx):
     b = ctx.stage('k2build', lambda: k2run.k2_build(ctx))
     if not b['ok']:
@@ -373,7 +385,7 @@ def k3_nostd(ctx):
     # brings its own #[panic_handler] cannot be built once std is anywhere in its dependency graph (E0152)
     for feat in (False, True):
         pc = os.path.join(ctx.dir, 'k3np%d' % feat)
-        ties_k3.write_lib_crate(pc, [('m0', PANIC_PROBE_MOD)], extra_root=PANIC_PROBE_ROOT, features=feat, no_std=True)
+        ties_k3.write_lib_crate(pc, [('m0', PANIC_PROBE_MOD + ('' if feat else IMPL_TRAIT_MOD))], extra_root=PANIC_PROBE_ROOT, features=feat, no_std=True)
         rc2, diags2, se2 = ties_k3.cargo_check(pc, target='target-k3n', build=True)
         n_asserts += 1
         if rc2 != 0:
